@@ -120,3 +120,26 @@ func ZZ_C18_Head(mode int) {
 	zzvrf.RaceCheck("no-data-race")
 	zzvrf.Reach("end")
 }
+
+// ZZ_C18_TxHash: two tasks consume one shared cached block whose
+// transaction arrived without a hash (hashless = 1: the memo is filled on
+// first use, under the transaction's own lock) or with one (hashless = 0).
+func ZZ_C18_TxHash(hashless int) {
+	bs := []eth.Block{{Txs: make([]eth.Tx, 2)}}
+	if hashless == 0 {
+		bs[0].Txs[0].PrecompHash = make([]byte, 32)
+	}
+	bs[0].Txs[1].PrecompHash = make([]byte, 32)
+	zzvrf.RaceRecord(true)
+	var eg errgroup.Group
+	for i := 0; i < 2; i++ {
+		eg.Go(func() error {
+			zzConsume(bs)
+			return nil
+		})
+	}
+	eg.Wait()
+	zzvrf.RaceRecord(false)
+	zzvrf.RaceCheck("no-data-race")
+	zzvrf.Reach("end")
+}
